@@ -32,6 +32,7 @@ type sRef struct {
 }
 
 type sessRun struct {
+	aging  bool
 	sm     *oidc.SessionManager
 	force  bool
 	jar    jar
@@ -369,8 +370,15 @@ func familySession(t *testing.T) {
 			s.sm, _ = oidc.NewSessionManager(sessKey, s.force, oidc.NewLogger("none"))
 			s.rec(M{"op": "snew", "secure": s.force})
 			nReq := 1 + rng.Intn(10)
+			s.aging = h%8 == 5 // a session that grows older than 24 h while its cookies are renewed by requests every few hours
+			if s.aging {
+				nReq = 5 + rng.Intn(4)
+			}
 			for q := 0; q < nReq; q++ {
 				s.request(rng, q)
+				if s.aging {
+					time.Sleep(9*time.Hour + time.Duration(rng.Intn(3600))*time.Second)
+				}
 				time.Sleep([]time.Duration{0, time.Second, time.Minute, time.Hour, 5 * time.Hour}[rng.Intn(5)])
 				synctest.Wait()
 				if T.prop == "C09" || rng.Intn(6) == 0 {
@@ -464,6 +472,23 @@ func (s *sessRun) request(rng *mrand.Rand, q int) {
 		}
 		T.stat("session.c07-readbacks")
 	}
+	if s.known && overAge {
+		// the implicit clear of an over-age session is a clear like any other: everything written before it reads back empty
+		got := sRef{access: sd.GetAccessToken(), refresh: sd.GetRefreshToken(), email: sd.GetEmail(), csrf: sd.GetCSRF(), nonce: sd.GetNonce(), ver: sd.GetCodeVerifier(), inc: sd.GetIncomingPath(), auth: sd.GetAuthenticated()}
+		if got != (sRef{}) {
+			diff := []string{}
+			for _, f := range [][2]string{{"ID token", got.access}, {"refresh token", got.refresh}, {"email", got.email}, {"csrf", got.csrf}, {"nonce", got.nonce}, {"verifier", got.ver}, {"incoming path", got.inc}} {
+				if f[1] != "" {
+					diff = append(diff, fmt.Sprintf("%s: read %d bytes after the clear", f[0], len(f[1])))
+				}
+			}
+			if got.auth {
+				diff = append(diff, "authenticated flag")
+			}
+			T.oracle("C07", "a session cleared for its age (24 h) still reads back values written before the clear", M{"differences": diff, "request": q}, s.replay())
+		}
+		T.stat("session.c07-overage-readbacks")
+	}
 	if !s.known || overAge {
 		// unknown or over-age jar: resynchronise the reference from what is read now
 		s.ref = sRef{access: sd.GetAccessToken(), refresh: sd.GetRefreshToken(), email: sd.GetEmail(), csrf: sd.GetCSRF(), nonce: sd.GetNonce(), ver: sd.GetCodeVerifier(), inc: sd.GetIncomingPath(), auth: sd.GetAuthenticated()}
@@ -476,6 +501,28 @@ func (s *sessRun) request(rng *mrand.Rand, q int) {
 	}
 	for sv := 0; sv < saves; sv++ {
 		nW := rng.Intn(5)
+		if s.aging && q == 0 && sv == 0 { // scripted: a login with tokens of several chunks each
+			for _, field := range []string{"access", "refresh"} {
+				tok := textWithCompressedLen(rng, (2+rng.Intn(3))*2000+rng.Intn(900), alnum)
+				id := s.reg(tok)
+				if field == "access" {
+					sd.SetAccessToken(tok)
+					s.ref.access = tok
+				} else {
+					sd.SetRefreshToken(tok)
+					s.ref.refresh = tok
+				}
+				s.secrets = append(s.secrets, tok)
+				s.rec(M{"op": "sset", "field": field, "val": id})
+			}
+			sd.SetAuthenticated(true)
+			s.ref.auth = true
+			s.ref.created = now
+			s.rec(M{"op": "sset", "field": "auth", "bool": true})
+		}
+		if s.aging && q > 0 && q < 3 {
+			nW = 0 // the session is only carried along (every response renews the cookies) until it is over age
+		}
 		for i := 0; i < nW; i++ {
 			switch f := rng.Intn(11); f {
 			case 0, 1, 2:
